@@ -16,7 +16,7 @@
      - the key expansion produces 16-byte in-range round keys ([aes_key_expand_wf]).
    Then the AES instances of every mode round trip of Proofs/ModeProofs.v. *)
 From Coq Require Import List NArith Bool Lia Arith Btauto.
-From IMB Require Import Lib.Bytes Spec.AES Spec.AESModes Proofs.C01Lists Proofs.ModeProofs.
+From IMB Require Import Lib.Bytes Spec.AES Spec.AESModes Struct.TailOps Proofs.C01Lists Proofs.ModeProofs.
 Import ListNotations.
 Local Open Scope N_scope.
 
@@ -503,3 +503,42 @@ Section AESModes.
     bytes_ok msg = true -> docsis_aes_dec key iv (docsis_aes_enc key iv msg) = msg.
   Proof. intros. apply (docsis_dec_enc _ _ (aes_E_len rks W) (aes_E_ok rks W) (aes_DE rks W)); assumption. Qed.
 End AESModes.
+
+Theorem aes_inv_cipher_partial :
+  (forall s, bytes_ok s = true -> inv_sub_bytes (sub_bytes s) = s) /\
+  (forall s, length s = 16 -> inv_shift_rows (shift_rows s) = s) /\
+  (forall s k, length s <= length k -> add_round_key (add_round_key s k) k = s) /\
+  (forall s, inv_mix_columns (mix_columns s) = s).
+Proof.
+  repeat split.
+  - exact inv_sub_bytes_sub_bytes.
+  - exact inv_shift_rows_shift_rows.
+  - intros. unfold add_round_key. now apply xor_bytes_involutive.
+  - exact inv_mix_columns_mix_columns.
+Qed.
+
+Theorem aes_mode_roundtrips :
+  forall key, bytes_ok key = true ->
+  (forall msg, bytes_ok msg = true -> ecb_dec key (ecb_enc key msg) = msg) /\
+  (forall iv msg, length iv = 16 -> bytes_ok iv = true -> bytes_ok msg = true ->
+     cbc_dec key iv (cbc_enc key iv msg) = msg) /\
+  (forall iv msg, length iv = 12 \/ length iv = 16 -> ctr key iv (ctr key iv msg) = msg) /\
+  (forall iv msg bitlen, 16 <= length iv -> ctr_bits_nbytes bitlen <= length msg ->
+     bytes_ok msg = true ->
+     let c := ctr_bits key iv msg bitlen msg in
+     ctr_bits key iv c bitlen c = firstn (ctr_bits_nbytes bitlen) msg) /\
+  (forall iv msg, length iv = 16 -> cfb_dec key iv (cfb_enc key iv msg) = msg) /\
+  (forall iv msg, length iv = 16 -> bytes_ok iv = true -> bytes_ok msg = true ->
+     cbcs_dec key iv (cbcs_enc key iv msg) = msg) /\
+  (forall iv msg, length iv = 16 -> bytes_ok iv = true -> bytes_ok msg = true ->
+     docsis_aes_dec key iv (docsis_aes_enc key iv msg) = msg).
+Proof.
+  intros key Ok. repeat split.
+  - now apply aes_ecb_dec_enc.
+  - now apply aes_cbc_dec_enc.
+  - now apply aes_ctr_involutive.
+  - now apply aes_ctr_bits_involutive.
+  - now apply aes_cfb_dec_enc.
+  - now apply aes_cbcs_dec_enc.
+  - now apply aes_docsis_dec_enc.
+Qed.
